@@ -31,7 +31,9 @@ import (
 
 // ---------------------------------------------------------------- hostile paths
 
-var hostileComponents = []string{"a", "..", ".", "", "a/b", "/abs", "a\\..\\b", "..\\..", "a\x00b"}
+// "root.old": the name of a sibling of the key store root that has the root's own name as a
+// string prefix ("../root.old/x" leaves the root although the joined path still starts with it)
+var hostileComponents = []string{"a", "..", ".", "", "a/b", "/abs", "a\\..\\b", "..\\..", "a\x00b", "root.old"}
 
 // hostilePaths: every distinct string made of 1..n components joined with "/".
 func hostilePaths(n int) []string {
@@ -778,7 +780,7 @@ func partPath() {
 		detect = "canary marker in results and error texts only (the scratch file system does not maintain access times)"
 	}
 	run.Set("path", map[string]interface{}{
-		"components": []string{"a", "..", ".", "(empty)", "a/b", "/abs", "a\\..\\b", "..\\..", "a<NUL>b"}, "max_components": 3,
+		"components": []string{"a", "..", ".", "(empty)", "a/b", "/abs", "a\\..\\b", "..\\..", "a<NUL>b", "root.old"}, "max_components": 3,
 		"distinct_paths": len(all), "backend_cases": nBackend, "keystore_cases": len(cases) - nBackend, "cases_run": n,
 		"rename_partners": len(partners), "read_detection": detect, "sandbox_depth": sandboxLevels,
 		"keystore_operations": ksOps,
